@@ -35,6 +35,7 @@ def run_chain_check(pid, tier, replay, mc_quick, mc_thorough, sim_cfg, n_quick, 
         "replayed_steps": stats["steps"],
         "step_classes_observed": stats["classes"],
         "twin_root_comparisons": stats["twin_checked"],
+        "observations_outside_the_properties": stats["observations_outside_the_properties"],
         "distinct_nontrivial_behaviours": chainlib.nontrivial(behs),
         "nontrivial_rule": "distinct (tree, step/result sequence) containing a fork acceptance, an orphan, or at least two head changes",
         "focus": focus,
